@@ -275,6 +275,11 @@ func (h *Hub) sendWSCloseMessage(conn *websocket.Conn) {
 
 // coordinate connection initiation attempts to a remove service
 func (h *Hub) coordinateConnectionInitations(ski string, entry *api.MdnsEntry) {
+	// no new connections once the hub is shut down
+	if h.checkHasShutdown() {
+		return
+	}
+
 	if h.isConnectionAttemptRunning(ski) {
 		return
 	}
@@ -305,6 +310,11 @@ func (h *Hub) coordinateConnectionInitations(ski string, entry *api.MdnsEntry) {
 // when initating a pairing process
 func (h *Hub) prepareConnectionInitation(ski string, counter int, entry *api.MdnsEntry) {
 	h.setConnectionAttemptRunning(ski, false)
+
+	// an attempt that was scheduled before the hub was shut down is not relevant any more
+	if h.checkHasShutdown() {
+		return
+	}
 
 	// check if the current counter is still the same, otherwise this counter is irrelevant
 	currentCounter, exists := h.getCurrentConnectionAttemptCounter(ski)
